@@ -293,6 +293,15 @@ def eof(R):
     back = g.reachable(succs(t, 'false'), skip_edge=nx)
     R.ob('C07.eof', 'empty read leaves the loop', not any(h in back for h in heads),
          'after an empty read (EOF) the loop can iterate again: it would spin on a closed transport', func=q, node=t.ast)
+    # ... and whatever a read returned is fed to the protocol layer before the next wait: a result that sends the loop back
+    # to the selector untouched ("nothing yet", None after a swallowed transport error) is a loop that spins on a dead socket
+    fd = [n for (n, _) in calls_to(R, g, 'websocket.WebSocket.feed')]
+    need(fd, 'run(): websocket.feed call not found')
+    okf = all_paths_pass(g, normal_succs(rn), fd, heads, skip_edge=nx)
+    R.ob('C07.eof', 'every read result is fed or ends the loop', okf,
+         'after _recv() the loop can return to selector.wait() without feeding the result to the websocket and without leaving '
+         'the loop: a read that reports nothing (an error swallowed in _recv) repeats for ever on a transport that has ended',
+         func=q, node=rn.ast, construct='read result skipped')
     conds = [m for h in heads for m in normal_succs(h) if m.kind == 'test']
     ok = any(U(c.ast) in ('websocket.is_closed', 'self.websocket.is_closed') for c in conds)
     R.ob('C07.eof', 'loop re-tests is_closed', ok, 'loop condition %s' % [U(c.ast) for c in conds], func=q, node=None,
